@@ -68,6 +68,10 @@ def run(ctx, bt):
     run_engine_protocol(ctx, bt, ctx.scale(20, 300), [Monitor(ctx)], FOOT_FIELDS, None, spec_kwargs={"fi_tree": False},
                         spec_mutator=_G.custom_price_trades, corr_name="step[C07]:custom-price-trades-with-multipliers")
     run_engine_protocol(ctx, bt, ctx.scale(110, 1200), [Monitor(ctx)], FOOT_FIELDS, None, corr_name="step[C07]")
+    # swept carry on the way into a liquidation: levered market-value roots holding coupon-paying securities through crashes
+    from .. import gen_engine as _GE
+    run_engine_protocol(ctx, bt, ctx.scale(25, 400), [Monitor(ctx)], FOOT_FIELDS, None, spec_kwargs={"fi_tree": False},
+                        spec_mutator=_GE.carry_tree, corr_name="step[C07]:carry-into-liquidation")
     run_programs(ctx, bt, ctx.scale(90, 1500), check_program)
     from ..runs_run import run_steps_protocol
     run_steps_protocol(ctx, bt, ctx.scale(12, 300), FOOT_FIELDS, "run-steps[C07]")
